@@ -223,6 +223,48 @@ pub async fn ctx_echo(rq: RequestContext<ZooCtx>, p: Path<MarkerPath>, q: Query<
     }))
 }
 
+/// Scan parameters of a paginated endpoint: optional fields of non-string types (decoded by
+/// dropshot's own from_map, like path parameters).
+#[derive(Clone, Debug, Default, PartialEq, Deserialize, Serialize, JsonSchema)]
+pub struct ScanP {
+    pub n: Option<u32>,
+    pub i: Option<i8>,
+    pub c: Option<Color>,
+    pub b: Option<bool>,
+    pub s: Option<String>,
+}
+#[derive(Clone, Debug, Deserialize, Serialize, JsonSchema)]
+pub struct SelP {
+    pub k: u32,
+}
+pub async fn page_echo(rq: RequestContext<ZooCtx>, q: Query<dropshot::PaginationParams<ScanP, SelP>>) -> Result<HttpResponseOk<ScanP>, HttpError> {
+    rq.context().enter(&op(&rq));
+    match q.into_inner().page {
+        dropshot::WhichPage::First(s) => Ok(HttpResponseOk(s)),
+        dropshot::WhichPage::Next(_) => Ok(HttpResponseOk(ScanP::default())),
+    }
+}
+
+// ---- endpoints declared with the #[endpoint] macro (limit overrides beside other attributes)
+macro_rules! macro_limit_endpoint {
+    ($name:ident, $($attr:tt)*) => {
+        #[dropshot::endpoint { method = PUT, $($attr)* }]
+        pub async fn $name(rq: RequestContext<ZooCtx>, b: UntypedBody) -> Result<HttpResponseOk<RawEcho>, HttpError> {
+            untyped_echo(rq, b).await
+        }
+    };
+}
+macro_limit_endpoint!(mlim_pub_40, path = "/mlim/pub40", request_body_max_bytes = 40);
+macro_limit_endpoint!(mlim_unpub_40, path = "/mlim/unpub40", request_body_max_bytes = 40, unpublished = true);
+macro_limit_endpoint!(mlim_unpub_3, path = "/mlim/unpub3", request_body_max_bytes = 3, unpublished = true);
+macro_limit_endpoint!(mlim_depr_3, path = "/mlim/depr3", request_body_max_bytes = 3, deprecated = true);
+macro_limit_endpoint!(mlim_tag_40, path = "/mlim/tag40", request_body_max_bytes = 40, tags = ["t"]);
+macro_limit_endpoint!(mlim_plain, path = "/mlim/plain");
+pub const MACRO_LIMITS: &[(&str, &str, Option<usize>)] = &[
+    ("/mlim/pub40", "mlim_pub_40", Some(40)), ("/mlim/unpub40", "mlim_unpub_40", Some(40)), ("/mlim/unpub3", "mlim_unpub_3", Some(3)),
+    ("/mlim/depr3", "mlim_depr_3", Some(3)), ("/mlim/tag40", "mlim_tag_40", Some(40)), ("/mlim/plain", "mlim_plain", None),
+];
+
 const JSON: &str = "application/json";
 const URLENC: &str = "application/x-www-form-urlencoded";
 
@@ -256,6 +298,13 @@ pub fn api(overrides: &[Option<usize>]) -> ApiDescription<ZooCtx> {
     api.register(ApiEndpoint::new("json_two".into(), body_echo::<Two>, http::Method::PUT, JSON, "/j/two", all())).unwrap();
     api.register(ApiEndpoint::new("form_two".into(), body_echo::<Two>, http::Method::PUT, URLENC, "/u/two", all())).unwrap();
     api.register(ApiEndpoint::new("query_two".into(), query_echo::<Two>, http::Method::GET, JSON, "/q/two", all())).unwrap();
+    api.register(mlim_pub_40).unwrap();
+    api.register(mlim_unpub_40).unwrap();
+    api.register(mlim_unpub_3).unwrap();
+    api.register(mlim_depr_3).unwrap();
+    api.register(mlim_tag_40).unwrap();
+    api.register(mlim_plain).unwrap();
+    api.register(ApiEndpoint::new("page".into(), page_echo, http::Method::GET, JSON, "/page", all())).unwrap();
     api.register(ApiEndpoint::new("wild".into(), wild_echo, http::Method::GET, JSON, "/w/{rest:.*}", all()).visible(false)).unwrap();
     api.register(ApiEndpoint::new("two_path".into(), two_path_echo, http::Method::GET, JSON, "/pp/{a}/{b}", all())).unwrap();
     api.register(ApiEndpoint::new("ctx".into(), ctx_echo, http::Method::PUT, JSON, "/ctx/{pm}", all())).unwrap();
